@@ -54,7 +54,9 @@ fn menu() -> Vec<(String, PVal)> {
         ("ZzOtherShared".into(), PVal::Shared(b"c07-second-content".to_vec())),
         ("Color".into(), PVal::V(Variant::Color3uint8(Color3uint8::new(1, 2, 3)))),
         ("Tags".into(), PVal::V(Variant::Tags(tags))),
-        ("ZzBeta".into(), PVal::V(Variant::String("x".into()))),
+        // carried by the first instance only (later instances take a prefix of the menu): the
+        // column is default-filled for the others, and nothing but the logical content may decide how
+        ("UniqueId".into(), PVal::V(Variant::UniqueId(rbx_dom_weak::types::UniqueId::new(5, 6, 7)))),
     ]
 }
 
@@ -188,10 +190,15 @@ fn variants(c: &Case07, tier: Tier) -> Vec<Variant07> {
         Case07::Props { k, .. } => {
             let total = factorial(*k);
             let step = if tier == Tier::Quick { (total / 120).max(1) } else { 1 };
+            // construction, Ref pool rotation and fixed/random Refs cycle with the variant's index,
+            // not with the permutation number (a stride that is a multiple of 8 would otherwise
+            // freeze them)
             let mut p = 0;
+            let mut j = 0usize;
             while p < total {
-                v.push(Variant07 { how: (p % 3) as u8, ref_rot: p % 8, fixed_refs: p % 2 == 0, perm: p });
+                v.push(Variant07 { how: (j % 3) as u8, ref_rot: (j / 2) % 8, fixed_refs: j % 2 == 0, perm: p });
                 p += step;
+                j += 1;
             }
         }
         Case07::Spell { .. } => {
